@@ -583,7 +583,7 @@ func corpusSub(r *core.Run, name string, cfg core.Cfg, keep func([]byte) bool, f
 	docsSub(r, name, fmt.Sprintf("%d documents of %s under %s", len(docs), corpusRule, cfg), cfg, docs, fn)
 }
 
-const corpusRule = "the structured corpus (container chains of every depth with a tight or loose second item at one level, every byte value 0..255 alone and between letters in every sink template, inline atoms on a first / inner / last line and around hard breaks in every sink template, nesting documents, colliding heading sequences, footnote sequences, attribute blocks, replication families, leak-prone documents, printed model documents with tab/space indentation in every single-deviation spelling, small tables with every pair of cell contents, code lines under containers in every tab/space mixture, indexed families of n footnotes / reference links / table columns and rows / attributes / inline items for every n up to a bound, delimiters next to non-ASCII whitespace and punctuation, every ATX/Setext heading shape with closers and attribute blocks, every block construct in every container and extension slot, CR LF versions of the model, table and code documents)"
+const corpusRule = "the structured corpus (container chains of every depth with a tight or loose second item at one level, every byte value 0..255 alone and between letters in every sink template, inline atoms on a first / inner / last line and around hard breaks in every sink template, nesting documents, colliding heading sequences, footnote sequences, attribute blocks, replication families, leak-prone documents, printed model documents with tab/space indentation in every single-deviation spelling, small tables with every pair of cell contents, code lines under containers in every tab/space mixture, indexed families of n footnotes / reference links / table columns and rows / attributes / inline items for every n up to a bound, delimiters next to non-ASCII whitespace and punctuation, every ATX/Setext heading shape with closers and attribute blocks, every block construct in every container and extension slot, CR LF versions of the model, table, code, multi-line sink and multi-line nesting documents)"
 
 // CountDocs returns indexed families whose size parameter n takes EVERY value 1..maxN: n footnotes (references then
 // definitions, and the other way round; every second one referenced twice), n reference links with n definitions, tables of
